@@ -39,6 +39,7 @@ from ttconv.filters.isd.supported_style_properties import SupportedStyleProperti
 from ttconv.isd import ISD
 from ttconv.srt.paragraph import SrtParagraph
 from ttconv.srt.config import SRTWriterConfiguration
+from ttconv.time_code import ClockTime
 from ttconv.style_properties import StyleProperties, FontStyleType, NamedColors, FontWeightType, TextDecorationType
 
 LOGGER = logging.getLogger(__name__)
@@ -151,6 +152,11 @@ class SrtContext:
       float(begin),
       float(end) if end is not None else "unbounded"
     )
+
+    if end is not None and ClockTime.from_seconds(end) == ClockTime.from_seconds(begin):
+      # the interval is empty once its ends are rounded to the millisecond
+      LOGGER.debug("Skipping ISD shorter than a millisecond.")
+      return
 
     is_isd_empty = True
 
